@@ -319,6 +319,23 @@ class Case:
                 self._obo.append(cur)
         return self._obo[i] if i < len(self._obo) else set()
 
+    def stalled_at(self, i):
+        """sessions whose connection has stalled (`stall S`) and has not been closed yet (`drop S`) when request i is made: nothing can be
+        handed to them"""
+        if not hasattr(self, "_stalled"):
+            self._stalled = []
+            cur = set()
+            for o in self.ops:
+                w = o.split(" ")
+                if w[0] == "reset":
+                    cur = set()
+                self._stalled.append(cur)
+                if w[0] == "stall" and len(w) > 1:
+                    cur = cur | {w[1]}
+                elif w[0] == "drop" and len(w) > 1:
+                    cur = cur - {w[1]}
+        return self._stalled[i] if i < len(self._stalled) else set()
+
     def deleted_before(self, i):
         """the accounts deleted by requests before request i (account -> index of the request)"""
         return {u: k for k, (u, _) in sorted(self.deletions().items()) if k < i}
@@ -540,6 +557,8 @@ def mon_C02(case):
                     continue
             if noecho and sid == w[1]:
                 continue
+            if sid in case.stalled_at(i):
+                continue            # a connection which has stopped reading: the topic cannot hand it anything (and lets go of it)
             expect.append(sid)
         got = [sid for sid, f in datas]
         for sid in set(got):
